@@ -365,7 +365,11 @@ class Case:
         s = b["s"]
         pcs, hcs = PY_CHARSET[b["pc"]], PY_CHARSET[b["hc"]]
         ptxt, htxt = self.plain + "\n", self.html + "\n"
-        if s in ("plain", "alt", "altrel"):
+        if s == "nobody":
+            # no body part at all: headers only, or a multipart/mixed of attachments only
+            if self.atts:
+                root.make_mixed()
+        elif s in ("plain", "alt", "altrel"):
             root.set_content(ptxt, subtype="plain", charset=pcs, cte=self._cte(ptxt, b["pe"]))
             if s != "plain":
                 if b["x"] == "alt2":
@@ -373,7 +377,7 @@ class Case:
                                          params={"format": "flowed"})
                 root.add_alternative(htxt, subtype="html", charset=hcs, cte=self._cte(htxt, b["he"]))
                 if s == "altrel":
-                    root.get_payload()[1].add_related(INLINE_PNG, maintype="image", subtype="png", cid="<c16img@x>")
+                    root.get_payload()[-1].add_related(INLINE_PNG, maintype="image", subtype="png", cid="<c16img@x>")
         else:
             root.set_content(htxt, subtype="html", charset=hcs, cte=self._cte(htxt, b["he"]))
             if s == "related":
@@ -526,7 +530,9 @@ class Case:
         pp = text_part(self.plain, "plain", PY_CHARSET[b["pc"]], b["pe"])
         hp = text_part(self.html, "html", PY_CHARSET[b["hc"]], b["he"])
         alt2 = [text_part(XPLAIN["alt2"], "plain", "utf-8", "7bit")] if b["x"] == "alt2" else []
-        if s == "plain":
+        if s == "nobody":
+            body = None
+        elif s == "plain":
             body = pp
         elif s == "html":
             body = hp
@@ -542,6 +548,8 @@ class Case:
         if b["x"] in ("fwd", "both"):
             extras.append(self._forwarded(None))
         atts = list(self.atts)
+        if body is None:
+            return MIMEMultipart("mixed", _subparts=[att_part(a) for a in atts]) if atts else Message()
         if not atts and not extras:
             return body
         if m["nest"] and len(atts) >= 2:
@@ -774,6 +782,7 @@ class Case:
         utype = getattr(units[0].get_metadata(), "body_type", "?") if units else "none"
         (pseq, psep), (fseq, fsep) = body_seq(c.body_plain), body_seq(full)
         return {"nunits": len(units), "utype": str(utype), "full": fseq, "fullsep": fsep, "joinok": joinok,
+                "utext": body_seq(units[0].get_text())[0] if len(units) == 1 else [UNKNOWN],
                 "plainsep": psep, "suppall": suppall,
                 "subj": words, "from": box(c.from_email),
                 "to": [box(b) for b in c.to_emails], "cc": [box(b) for b in c.to_cc],
